@@ -17,6 +17,10 @@ MustFail(vsize, keys, klens, vlens) ==
     \/ \E i \in 1..Len(klens) : klens[i] > MaxKeyLen
     \/ \E i \in 1..Len(vlens) : vlens[i] > vsize      \* (a shorter value is outside the property's domain: fixed-size values)
 \* outcome \in {"ok","err","panic"}; found[i] = the lookup of insert i returned exactly its value
+\* may a build of supported inputs fail?  Only when a bucket is over-full: mining a collision-free 24-bit hash for a bucket
+\* succeeds with probability ~exp(-n^2 / 2^25) per attempt (1000 attempts): certain for <= 10 000 entries per bucket
+\* (the builder's target), hopeless above ~20 000.  avgload = inserts per bucket given the declared item count.
+MayFail(avgload) == avgload > 10000
 BuildAllowed(vsize, keys, klens, vlens, outcome, found, deterministic) ==
     /\ outcome \in {"ok", "err"}
     /\ MustFail(vsize, keys, klens, vlens) => outcome = "err"
